@@ -164,6 +164,10 @@ static void death_site (char *site, size_t max) {
     if (strcmp (fn, "death_site") == 0 || strcmp (fn, "die_report") == 0 || strcmp (fn, "on_signal") == 0
         || strcmp (fn, "on_exit_hook") == 0 || strcmp (fn, "??") == 0)
       continue;
+    /* the innermost frame we can name is the harness itself (c03_*.c/.h, c16_*.c): the library is not on
+       the stack, control was in generated code (lazy-BB generation prints no closing line, so gen_depth
+       alone cannot tell) */
+    if (strncmp (loc, "c03_", 4) == 0 || strncmp (loc, "c16_", 4) == 0) break;
     snprintf (site, max, "%s", fn);
     break;
   }
@@ -172,10 +176,10 @@ static void death_site (char *site, size_t max) {
 static void die_report (const char *how, int n) {
   char msg[600], site[128];
   int len;
-  if (gen_depth) {
-    death_site (site, sizeof (site));
+  if (gen_depth) death_site (site, sizeof (site));
+  if (gen_depth && strcmp (site, "unknown") != 0)
     len = snprintf (msg, sizeof (msg), " CRASH:gen:%s:%s%d:%s\n", gen_trace, how, n, site);
-  } else
+  else
     len = snprintf (msg, sizeof (msg), " CRASH:run:%s%d\n", how, n);
   fflush (stdout);
   if (write (1, msg, len) < 0) {}
